@@ -103,6 +103,11 @@ def configs(tier, seed):
             cw = dict(cc)
             cw.update(name=c["name"] + "-segmented-seq-wrap", isn_c=(1 << 32) - 70, isn_s=(1 << 32) - 45)
             out.append(cw)
+            # both directions start at the same sequence number: every segment of one direction has a twin with the same number in the
+            # other one (state shared between the directions - a duplicate filter, a buffer - shows)
+            ci = dict(cc)
+            ci.update(name=c["name"] + "-segmented-same-isn", isn_c=1000, isn_s=1000)
+            out.append(ci)
     # ---- one record from an arbitrary cipher state, one configuration per behaviour class
     for cls, members in sorted(by_class.items()):
         code, name = members[0] if tier == "quick" else rnd.choice(members)
